@@ -397,6 +397,7 @@ def correspond(ctx):
     stream_wedges(ctx)
     stream_wedge_model(ctx)
     stream_parser(ctx)
+    stream_allenes(ctx)
     ctx.cov['programs'] += 2   # parser(), postprocess_molecule cis/trans loop
     ctx.cov['programs'] += 3   # SDFRead/add_wedge, SDFWrite/_wedge_map, calculate_cis_trans_from_2d
     ctx.cov['programs'] += 3   # __chiral_centers via chiral_cis_trans, fix_stereo, stereogenic_* properties
@@ -2037,3 +2038,109 @@ def stream_polyenes(ctx):
             db = {k: v for k, v in db.items() if k in lab_db}
             ctx.dist('polyene-isomers')
             judge_input(ctx, smi, tet, db, ctx.rng, 6 if ctx.quick else 40, 'polyene:' + t, use_rdkit=True)
+
+
+# ---- allenes: K on the reader / writer allene branch, R on spellings of fully substituted allenes ---------------------
+
+def allene_spellings(mid='C', n_cum=3):
+    """(config id, smiles) for F,Cl | Br,I substituted allenes / odd cumulenes: every order inside the ends, either end first,
+    chain or branch form of the first end. Reference list [F, Cl, Br, I] with '@'."""
+    ref = ['F', 'Cl', 'Br', 'I']
+    out = []
+    core_mid = '=' + '=C='.join(['[C{m}]'] * 1) if n_cum == 3 else None
+    for first_end, second_end in ((('F', 'Cl'), ('Br', 'I')), (('Br', 'I'), ('F', 'Cl'))):
+        for a in (first_end, first_end[::-1]):
+            for b in (second_end, second_end[::-1]):
+                L = list(a) + list(b)
+                even = not odd(L, ref)
+                for sign in (True, False):
+                    mark = '@' if (sign == even) else '@@'
+                    centre = f'[C{mark}]'
+                    chain = '=C=' .join([]) if False else None
+                    middle = centre if n_cum == 3 else f'C={centre}=C'
+                    out.append((sign, f'{a[0]}C({a[1]})={middle}=C({b[0]}){b[1]}'))
+                    out.append((sign, f'C({a[0]})({a[1]})={middle}=C({b[0]}){b[1]}'))
+    return out
+
+
+def stream_allenes(ctx):
+    from chython import smiles, MoleculeContainer
+    from chython.files.daylight.tokenize import smiles_tokenize
+    from chython.files.daylight.parser import parser
+    rd = Stream(ctx, 'smiles_reader_allene')
+    wr = Stream(ctx, 'smiles_writer_allene')
+    import chython.algorithms.smiles as SM
+    rec = []
+    orig = MoleculeContainer._format_atom
+
+    def spy(self, n, adjacency, **kw):
+        r = orig(self, n, adjacency, **kw)
+        if self._atoms[n].stereo is not None and n in self._stereo_allenes_terminals:
+            t1, t2 = self._stereo_allenes_terminals[n]
+            rec.append((n, list(adjacency[t1]), list(adjacency[t2]), r))
+        return r
+
+    cases = allene_spellings(n_cum=3) + allene_spellings(n_cum=5)
+    extra = ['FC=[C@]=CBr', 'FC=[C@@]=CBr', 'BrC=[C@]=CF', 'C(F)=[C@]=CBr', '[H]C(F)=[C@]=C([H])Br', 'FC([H])=[C@@]=C(Br)[H]',
+             'FC(Cl)=[C@]=CBr', 'C1(=[C@]=C(Br)I)CCOC1', 'C1CCOCC1=[C@]=C(F)Cl', 'CC=[C@]=CC', 'OC(C)=[C@@]=C(N)C']
+    old_random = SM.random
+    MoleculeContainer._format_atom = spy
+    SM.random = ctx.rng.random
+    strs = {True: set(), False: set()}
+    try:
+        for sign, smi in cases + [(None, s) for s in extra]:
+            try:
+                d = parser(list(smiles_tokenize(smi)), False)
+                mol = smiles(smi)
+            except Exception as e:
+                ctx.broke('correspondence', 'smiles_reader_allene', f'{smi!r} raised {type(e).__name__}: {e}')
+                continue
+            hs = h_atoms(mol)
+            for i, mark in d['stereo_atoms'].items():
+                c = i + 1
+                if c not in mol.stereogenic_allenes:
+                    continue
+                env = mol.stereogenic_allenes[c]
+                t1, t2 = mol._stereo_allenes_terminals[c]
+                o1 = [x + 1 for x in d['order'][t1 - 1]]
+                o2 = [x + 1 for x in d['order'][t2 - 1]]
+                st = mol._atoms[c].stereo
+                rd.add(' '.join(map(str, ['ra'] + ends_wire(env) + lst(o1) + lst(o2) + lst(hs) + [int(mark)])),
+                       'none' if st is None else f'ok {int(st)}', {'kind': 'allene', 'smiles': smi})
+            for fmt in ('', 'r', 'r'):
+                del rec[:]
+                mol.__dict__.pop('__cached_method___str__', None)
+                out = format(mol, fmt) if fmt else str(mol)
+                for n, a1, a2, tok in rec:
+                    wr.add(' '.join(map(str, ['wa'] + ends_wire(mol.stereogenic_allenes[n]) + lst(a1) + lst(a2) + lst(hs) +
+                                            [tri(mol._atoms[n].stereo)])), f"ok {int('@@' not in tok)}", {'kind': 'allene', 'smiles': smi})
+                ctx.count(('allene-reread', out))
+                if str(smiles(out)) != str(mol):
+                    ctx.fail('C12/allene-write-read-changes-configuration', f'{smi!r} written as {out!r} reads back as {str(smiles(out))!r}',
+                             {'kind': 'reread', 'smiles': smi})
+            if sign is not None:
+                strs[sign].add((str(mol), smi))
+    finally:
+        MoleculeContainer._format_atom = orig
+        SM.random = old_random
+    rd.run()
+    wr.run()
+    # R: per cumulene length, all spellings of one configuration are one molecule, the two configurations differ
+    for n_cum, tag in ((3, 'C=C=C'), (5, 'C=C=C=C=C')):
+        def of(sign):
+            return {s for s, smi in strs[sign] if (smi.count('=') == n_cum - 1)}
+        a, b = of(True), of(False)
+        ctx.count(('allene-config', tag))
+        ex = {sign: next((smi for s, smi in strs[sign] if smi.count('=') == n_cum - 1), None) for sign in (True, False)}
+        if len(a) > 1 or len(b) > 1:
+            two = [smi for s, smi in strs[True if len(a) > 1 else False] if smi.count('=') == n_cum - 1]
+            byS = {}
+            for s, smi in strs[True if len(a) > 1 else False]:
+                if smi.count('=') == n_cum - 1:
+                    byS.setdefault(s, smi)
+            x, y = list(byS.values())[:2]
+            ctx.fail(f'C12/spellings-of-one-configuration-differ/allene-{tag}', f'{x!r} and {y!r} denote one configuration but parse differently',
+                     {'kind': 'spelling-pair', 'a': x, 'b': y, 'same': True})
+        elif a and b and a == b:
+            ctx.fail(f'C12/mirror-images-equal/allene-{tag}', f'{ex[True]!r} and its mirror image {ex[False]!r} are equal',
+                     {'kind': 'spelling-pair', 'a': ex[True], 'b': ex[False], 'same': False})
